@@ -101,3 +101,57 @@ def ob_handler_survives(a: int, b: int, n: int, bare: bool, mode: int, eager: bo
     if unfinished:
         return "%d tasks still alive after the connection ended" % len(unfinished)
     return "ok"
+
+
+HOSTILE_TAGS = ([["e", {"a": 1}]], [["t", ["x"]]], [["expiration", {"n": 1}]], [["e", "x"]])
+
+
+@obligation(funcs=["web.start_client", "storage.db.DBStorage.add_event", "storage.db.DBStorage.process_tags"],
+            timeout=(200, 900),
+            bounds="SQL backend behind the real handler: k<=3 EVENT messages whose tags make the storage raise inside its "
+                   "transaction (object / array tag values, or an engine-level rejection of the row, by symbolic selector), insert slot capacity 2, then a well-formed "
+                   "EVENT from a second connection: every EVENT is answered by one OK and the last one is accepted")
+def ob_sql_hostile_events(k: int, h0: int, h1: int, h2: int) -> str:
+    """
+    pre: 0 <= k <= 3 and 0 <= h0 < 4 and 0 <= h1 < 4 and 0 <= h2 < 4
+    pre: (k > 2 or h2 == 0) and (k > 1 or h1 == 0) and (k > 0 or h0 == 0)
+    post: _.startswith("ok")
+    """
+    return hostile_body(k, h0, h1, h2)
+
+
+def hostile_body(k, h0, h1, h2):
+    logging.disable(logging.CRITICAL)
+    from harness import _sqlstore as S
+    from envmodel.fake_asyncio import Semaphore
+    loop = Loop()
+    C.install(loop)
+    st = S.make_store()
+    st.add_slot = Semaphore(2)
+    st.clients = {}
+    st.subscription_class = C.StubSub
+    msgs = []
+    for i, h in enumerate((h0, h1, h2)[:k]):
+        ev = S.evj(i, False, 1, 10 + i, [list(t) for t in pick(HOSTILE_TAGS, h)])
+        msgs.append(["EVENT", ev])
+        if h == 3:
+            # an ordinary-looking event the engine rejects inside the transaction (value too large for a column, ...)
+            st.db.fail_ids.append(bytes.fromhex(ev["id"]))
+    conn1 = C.Conn(loop, msgs)
+    conn2 = C.Conn(loop, [["EVENT", S.evj(4, True, 1, 50, [["e", "fine"]])]])
+    try:
+        loop.run(C.run_client(loop, st, conn1))
+        loop.run(C.run_client(loop, st, conn2))
+    except Deadlock as e:
+        return "a later connection is wedged after %d failing EVENTs: %s" % (k, e)
+    except Exception as e:
+        return "exception escaped the connection handler: %r" % (e,)
+    oks1 = [f for f in conn1.frames() if f[0] == "OK"]
+    oks2 = [f for f in conn2.frames() if f[0] == "OK"]
+    if len(oks1) != k:
+        return "%d EVENTs answered by %d OK frames" % (k, len(oks1))
+    if len(oks2) != 1 or oks2[0][2] is not True:
+        return "well-formed EVENT of the second connection answered %r" % (conn2.frames(),)
+    if st.add_slot.acquired != 0:
+        return "insert slot leaked (%d held)" % st.add_slot.acquired
+    return "ok" if k else "ok-trivial"
